@@ -166,6 +166,11 @@ func (lp *logProcessor[INPUT, OUTPUT]) forgeLog(
 		if errors.Is(err, postgres.ErrDeadlockDetected) || errors.Is(err, ledgerstore.ErrIdempotencyKeyConflict{}) {
 			return lp.forgeLogRetry(ctx, store, parameters, fn)
 		}
+		if log, output, ikErr := lp.recheckIK(ctx, store, parameters); ikErr != nil {
+			return nil, nil, false, ikErr
+		} else if output != nil {
+			return log, output, true, nil
+		}
 		return nil, nil, false, fmt.Errorf("unexpected error while forging log: %w", err)
 	}
 
@@ -210,6 +215,11 @@ func (lp *logProcessor[INPUT, OUTPUT]) forgeLogRetry(
 
 				return log, output, true, nil
 			default:
+				if log, output, ikErr := lp.recheckIK(ctx, store, parameters); ikErr != nil {
+					return nil, nil, false, ikErr
+				} else if output != nil {
+					return log, output, true, nil
+				}
 				return nil, nil, false, fmt.Errorf("unexpected error while forging log: %w", err)
 			}
 		}
@@ -218,6 +228,25 @@ func (lp *logProcessor[INPUT, OUTPUT]) forgeLogRetry(
 	}
 }
 
+// recheckIK is called when a write carrying an idempotency key failed: a concurrent
+// request with the same key may have committed after the key was first looked up,
+// in which case its effects are what made this execution fail (funds already
+// spent, transaction already reverted, reference taken). The caller must then get
+// the committed result (same input) or the idempotency validation error
+// (different input), not that business error.
+func (lp *logProcessor[INPUT, OUTPUT]) recheckIK(ctx context.Context, store Store, parameters Parameters[INPUT]) (*ledger.Log, *OUTPUT, error) {
+	if parameters.IdempotencyKey == "" {
+		return nil, nil, nil
+	}
+	log, output, err := lp.fetchLogWithIK(ctx, store, parameters)
+	if err != nil {
+		if errors.Is(err, ErrInvalidIdempotencyInput{}) {
+			return nil, nil, err
+		}
+		return nil, nil, nil
+	}
+	return log, output, nil
+}
 func (lp *logProcessor[INPUT, OUTPUT]) fetchLogWithIK(ctx context.Context, store Store, parameters Parameters[INPUT]) (*ledger.Log, *OUTPUT, error) {
 	log, err := store.ReadLogWithIdempotencyKey(ctx, parameters.IdempotencyKey)
 	if err != nil {
